@@ -364,6 +364,16 @@ pub fn run(args: &Args) {
         |v: &Option<Option<String>>| -> Option<Option<&str>> { v.as_ref().map(|x| x.as_deref()) },
         |d: Option<Option<&str>>| d.map(|x| x.map(|y| y.to_string()))).run(r, o, rounds);
     case!(owned "arr3(u16)", [u16; 3], [u16; 3], |r: &mut Rng| [gen_u16(r) % 3, gen_u16(r) % 3, gen_u16(r)]).run(r, o, rounds);
+    // fixed arrays of every element width and sign, one-byte elements included (a byte-wise shortcut
+    // is right for u8 / bool and wrong for i8)
+    case!(owned "arr2(i8)", [i8; 2], [i8; 2], |r: &mut Rng| [gen_i8(r), gen_i8(r)]).run(r, o, rounds);
+    case!(owned "arr1(i8)", [i8; 1], [i8; 1], |r: &mut Rng| [gen_i8(r)]).run(r, o, rounds / 2 + 1);
+    case!(owned "arr4(u8)", [u8; 4], [u8; 4], |r: &mut Rng| [gen_u8(r) % 2, gen_u8(r), gen_u8(r), gen_u8(r)]).run(r, o, rounds / 2 + 1);
+    case!(owned "arr2(bool)", [bool; 2], [bool; 2], |r: &mut Rng| [r.chance(1, 2), r.chance(1, 2)]).run(r, o, rounds / 10 + 1);
+    case!(owned "arr3(i16)", [i16; 3], [i16; 3], |r: &mut Rng| [gen_i16(r) % 2, gen_i16(r), gen_i16(r)]).run(r, o, rounds);
+    case!(owned "arr2(i64)", [i64; 2], [i64; 2], |r: &mut Rng| [gen_i64(r) % 2, gen_i64(r)]).run(r, o, rounds / 2 + 1);
+    case!(owned "opt(arr2(i8))", Option<[i8; 2]>, Option<[i8; 2]>, |r: &mut Rng| gen_opt(r, |r| [gen_i8(r), gen_i8(r)])).run(r, o, rounds / 2 + 1);
+    case!(owned "tup(u8;arr2(i8))", (u8, [i8; 2]), (u8, [i8; 2]), |r: &mut Rng| (gen_u8(r) % 2, [gen_i8(r), gen_i8(r)])).run(r, o, rounds / 2 + 1);
     case!(view "arr2(str)", [&str; 2], [String; 2], |r: &mut Rng| [gen_string(r), gen_string(r)],
         |v: &[String; 2]| -> [&str; 2] { [v[0].as_str(), v[1].as_str()] }, |d: [&str; 2]| [d[0].to_string(), d[1].to_string()]).run(r, o, rounds * 3);
     case!(view "arr3(str)", [&str; 3], [String; 3], |r: &mut Rng| [gen_string(r), gen_string(r), gen_string(r)],
